@@ -155,6 +155,12 @@ def main():
              "a default chosen at initialisation time, or a small inline helper in a shared header - or a change whose two halves sit in "
              "different functions / files and are each harmless alone")
         table = dict((k, g) for k in FOCUS)
+    if "--focus5" in sys.argv:
+        use_focus = True
+        g = ("an ordinary-looking logic slip in the sequential skeleton of an operation - a loop bound or direction, an index or size computation, "
+             "the polarity of a condition, an argument handed to a helper, a missing / duplicated / misplaced call, an early return, a wrong field - "
+             "in code the test suite does not run; NOT a memory-ordering or barrier change")
+        table = dict((k, g) for k in FOCUS)
     props = {json.loads(l)["id"]: json.loads(l) for l in open(os.path.join(V, "properties.jsonl"))}
     prev = {}
     for m in sorted(glob.glob(os.path.join(V, "seeded", "C*-*", "meta.json"))):
